@@ -3,12 +3,17 @@
 (* Exhaustive exploration of the low-pass calling model (property C18).    *)
 (* A behaviour fixes a sequencing design (n_sequenced, n_subsampling, a    *)
 (* depth-of-coverage distribution from a rational lattice on depths 0..3), *)
-(* then an inbreeding coefficient, then pushes one site class (a unit      *)
-(* model spectrum e_x: all laws are linear in the model) through the       *)
-(* stages of the correction:                                               *)
-(*    model --DoCall--> called | simulated --DoSubsample--> subsampled     *)
-(*          --DoMiscall--> corrected.                                      *)
-(* The laws of C18 are invariants evaluated in every reachable state.      *)
+(* then an inbreeding coefficient (the calling components NoCall,          *)
+(* subsampling matrix, calling-error matrix are computed at that step and  *)
+(* carried in the state), then a model spectrum and a simulation           *)
+(* threshold, and pushes the model through the stages of the correction:   *)
+(*    model --DoCall--> called --DoSubsample--> subsampled                 *)
+(*          --DoMiscall--> miscalled --DoMerge--> corrected.               *)
+(* DoCall removes the sites that are not called (analytic entries) and     *)
+(* sets aside the entries handed to the simulator; DoMerge adds what the   *)
+(* simulator returned for them (any distribution over the called spectrum; *)
+(* the extreme points are explored).  The laws of C18 are invariants       *)
+(* evaluated in every reachable state.                                     *)
 (***************************************************************************)
 EXTENDS LowPass, TLC
 CONSTANTS MaxSeq,      \* largest n_sequenced (even)
@@ -30,32 +35,51 @@ CovLattice == {[d \in 1..4 |-> RDiv(RInt(q[d]), RInt(CovDen))] :
                  q \in {qq \in [1..4 -> 0..CovDen] : qq[1] + qq[2] + qq[3] + qq[4] = CovDen /\ qq[1] < CovDen}}
 Unit(len, j) == [k \in 1..len |-> IF k = j + 1 THEN "1" ELSE "0"]
 UnitSpec(len, j) == [sh |-> <<len>>, d |-> Unit(len, j), m |-> [k \in 1..len |-> FALSE], f |-> FALSE, ids |-> <<>>]
+\* model spectra: a generic one (all laws are linear in the model) and the neutral 1/x spectrum with empty corners
+Models(nseq) == {[k \in 1..(nseq + 1) |-> RInt(2 * k + 1)],
+                 [k \in 1..(nseq + 1) |-> IF k = 1 \/ k = nseq + 1 THEN "0" ELSE RDiv("1", RInt(k - 1))]}
+NoComp == [nc |-> <<>>, pj |-> <<>>, pm |-> <<>>, ce |-> <<>>, e |-> "0"]
+\* the calling components of a design for inbreeding coefficient f
+Components(nseq, nsub, cov, f) ==
+    LET e  == EnoughCovered(cov, nseq, nsub)
+        pj == ProjectionMatrix(nseq, nsub, f)
+    IN  [nc |-> NoCall(cov, nseq, f), e |-> e, pj |-> pj, pm |-> ScaleMat(e, pj), ce |-> CallingErrorMatrix(cov, nsub, f)]
+PointMass3(cov) == cov[4] = "1"      \* laws that do not depend on the coverage distribution are evaluated at this one
 
-\* the first step chooses F (so that TLC's workers share the designs)
+\* the first step chooses F (so that TLC's workers share the designs) and computes the calling components
 Init == /\ stage = "design" /\ v = <<>>
         /\ \E nseq \in Evens(2, MaxSeq) : \E nsub \in Evens(2, nseq) : \E cov \in CovLattice :
-              st = [nseq |-> nseq, nsub |-> nsub, cov |-> cov, F |-> "0", x |-> 0]
+              st = [nseq |-> nseq, nsub |-> nsub, cov |-> cov, F |-> "0", c |-> NoComp, c0 |-> NoComp,
+                    model |-> <<>>, usesim |-> <<>>, simj |-> 0]
 ChooseF == /\ stage = "design" /\ stage' = "params" /\ v' = v
-           /\ \E f \in Fs : st' = [st EXCEPT !.F = f]
-PickSite == /\ stage = "params" /\ stage' = "model"
-            /\ \E x \in 0..st.nseq : st' = [st EXCEPT !.x = x] /\ v' = Unit(st.nseq + 1, x)
-\* sites that are not called are lost (analytic regime) or the entry is handed to the simulator,
-\* which returns some distribution over the called spectrum (extreme points: unit vectors)
-DoCall == /\ stage = "model" /\ st' = st
-          /\ LET nc == NoCall(st.cov, st.nseq, st.F)[st.x + 1] IN
-             \E thr \in Thresholds :
-                IF RLt(thr, nc)
-                THEN stage' = "simulated" /\ \E j \in 0..st.nsub : v' = Unit(st.nsub + 1, j)
-                ELSE stage' = "called" /\ v' = RScaleSeq(RSub("1", nc), v)
+           /\ \E f \in Fs :
+                 st' = [st EXCEPT !.F = f, !.c = Components(st.nseq, st.nsub, st.cov, f),
+                                  \* the random-mating components, for the continuity law
+                                  !.c0 = IF f \in SmallF THEN Components(st.nseq, st.nsub, st.cov, "0") ELSE NoComp]
+PickModel == /\ stage = "params" /\ stage' = "model"
+             /\ \E m \in Models(st.nseq) : \E thr \in Thresholds :
+                   /\ st' = [st EXCEPT !.model = m, !.usesim = UseSim(st.c.nc, thr), !.c0 = NoComp]
+                   /\ v' = m
+\* analytic entries lose the sites that are not called; simulated entries are set aside
+DoCall == /\ stage = "model" /\ stage' = "called" /\ st' = st
+          /\ v' = [k \in 1..Len(v) |-> IF st.usesim[k] THEN "0" ELSE RMul(v[k], RSub("1", st.c.nc[k]))]
 DoSubsample == /\ stage = "called" /\ stage' = "subsampled" /\ st' = st
-               /\ v' = ContractAxis(<<st.nseq + 1>>, v, 1, SubsampleMat(EnoughCovered(st.cov, st.nseq, st.nsub), st.nseq, st.nsub, st.F))
-DoMiscall == /\ stage = "subsampled" /\ stage' = "corrected" /\ st' = st
-             /\ v' = ContractAxis(<<st.nsub + 1>>, v, 1, CallingErrorMatrix(st.cov, st.nsub, st.F))
-Next == ChooseF \/ PickSite \/ DoCall \/ DoSubsample \/ DoMiscall
+               /\ v' = ContractAxis(<<st.nseq + 1>>, v, 1, st.c.pm)
+DoMiscall == /\ stage = "subsampled" /\ stage' = "miscalled" /\ st' = st
+             /\ v' = ContractAxis(<<st.nsub + 1>>, v, 1, st.c.ce)
+\* the simulator returns, for every entry handed to it, some distribution over the called spectrum
+SimMass == RSum([k \in 1..Len(st.model) |-> IF st.usesim[k] THEN st.model[k] ELSE "0"])
+DoMerge == /\ stage = "miscalled" /\ stage' = "corrected"
+           /\ \E j \in (IF \E k \in 1..Len(st.usesim) : st.usesim[k] THEN 0..st.nsub ELSE {0}) :
+                                     /\ st' = [st EXCEPT !.simj = j]
+                                     /\ v' = RAddSeq(v, RScaleSeq(SimMass, Unit(st.nsub + 1, j)))
+Next == ChooseF \/ PickModel \/ DoCall \/ DoSubsample \/ DoMiscall \/ DoMerge
 Spec == Init /\ [][Next]_vars
 
-TypeOK == /\ stage \in {"design", "params", "model", "called", "simulated", "subsampled", "corrected"}
+TypeOK == /\ stage \in {"design", "params", "model", "called", "subsampled", "miscalled", "corrected"}
           /\ IsCov(st.cov) /\ st.nsub <= st.nseq
+          /\ (stage = "params" => st.c.pm = SubsampleMat(st.c.e, st.nseq, st.nsub, st.F))
+          /\ (stage # "design" => Len(st.c.pm) = st.nseq + 1 /\ Len(st.c.ce) = st.nsub + 1 /\ Len(st.c.nc) = st.nseq + 1)
 
 n == st.nseq \div 2
 FnDist(f) == (\A c \in DOMAIN f : RNonNeg(f[c])) /\ RSum(f) = "1"
@@ -64,7 +88,7 @@ MaxAbsDiffMat(A, B) == RSeqMaxAbs([x \in 1..Len(A) |-> MaxAbsDiffSeq(A[x], B[x])
 Mean(row) == RSum([j \in 1..Len(row) |-> RMul(RInt(j - 1), row[j])])
 
 \* ---- partitions: all and only the configurations; probabilities ----
-L_Partitions == stage = "design" =>
+L_Partitions == (stage = "design" /\ PointMass3(st.cov)) =>
     /\ \A x \in 0..st.nseq :
           /\ Configs(x, n) = ConfigsBrute(x, n)
           /\ {CountsOf(s) : s \in SortedLists(x, n)} = Configs(x, n)
@@ -77,20 +101,20 @@ L_PartProbs == stage = "params" => \A x \in 0..st.nseq :
 L_GenoHW == (stage = "params" /\ st.F # "0") => \A x \in 1..(st.nseq - 1) :
     LET g == GenoProbs(x, n, st.F) IN g = GenoHW(x, n, st.F) /\ RSum(g) = "1" /\ \A k \in 1..3 : RNonNeg(g[k])
 \* ---- subsampling ----
-L_ProjInb == stage = "design" => \A x \in 0..st.nseq : \A c \in Configs(x, n) :
+L_ProjInb == (stage = "design" /\ PointMass3(st.cov)) => \A x \in 0..st.nseq : \A c \in Configs(x, n) :
     LET pi == ProjInb(c, st.nsub) IN IsDist(pi) /\ RMul(Mean(pi), RInt(st.nseq)) = RInt(x * st.nsub)
 L_ProjMatrix == stage = "params" =>
-    LET M == ProjectionMatrix(st.nseq, st.nsub, st.F) IN
+    LET M == st.c.pj IN
     /\ RowStochastic(M)
     /\ \A x \in 0..st.nseq : RMul(Mean(M[x + 1]), RInt(st.nseq)) = RInt(x * st.nsub)        \* mean frequency kept
     /\ (st.nsub = st.nseq => \A x \in 0..st.nseq : M[x + 1] = Unit(st.nseq + 1, x))          \* no subsampling = identity
 \* drawing nsub/2 individuals from randomly mated genotypes = drawing nsub haplotypes (hypergeometric)
-L_ProjRandomMating == stage = "design" => \A x \in 0..st.nseq :
+L_ProjRandomMating == (stage = "design" /\ PointMass3(st.cov)) => \A x \in 0..st.nseq :
     LET pp == PartProbs(x, n, "0") IN
     [j \in 1..(st.nsub + 1) |-> RSum([c \in DOMAIN pp |-> RMul(pp[c], ProjInb(c, st.nsub)[j])])] = ProjRow(st.nseq, st.nsub, "0", x)
 \* ---- calling ----
 L_CallErr == stage = "params" =>
-    LET M == CallingErrorMatrix(st.cov, st.nsub, st.F) IN
+    LET M == st.c.ce IN
     /\ RowStochastic(M)
     /\ \A x \in 0..st.nsub : Mean(M[x + 1]) = RInt(x)                 \* miscalls are symmetric
     /\ M[1] = Unit(st.nsub + 1, 0) /\ M[st.nsub + 1] = Unit(st.nsub + 1, st.nsub)   \* no heterozygote, no miscall
@@ -110,7 +134,7 @@ L_NoCallSemantics == stage = "design" => \A x \in 0..st.nseq : \A c \in Configs(
     /\ IsDist(t)
     /\ NoCallConfig(st.cov, c) = RAdd(t[1], IF Len(t) >= 2 THEN t[2] ELSE "0")
 L_NoCall == stage = "params" =>
-    LET nc == NoCall(st.cov, st.nseq, st.F) IN
+    LET nc == st.c.nc IN
     /\ \A x \in 0..st.nseq : RNonNeg(nc[x + 1]) /\ RLeq(nc[x + 1], "1")
     /\ nc[1] = "1"                                                     \* a monomorphic site is never called variant
 L_Enough == stage = "design" =>
@@ -124,28 +148,40 @@ L_Continuity == (stage = "params" /\ st.F \in SmallF) =>
     LET bound == RMul(Lip, st.F) IN
     /\ \A x \in 0..st.nseq : LET a == PartProbs(x, n, st.F) b == PartProbs(x, n, "0") IN
                                \A c \in DOMAIN a : RLeq(RAbs(RSub(a[c], b[c])), bound)
-    /\ RLeq(MaxAbsDiffMat(ProjectionMatrix(st.nseq, st.nsub, st.F), ProjectionMatrix(st.nseq, st.nsub, "0")), bound)
-    /\ RLeq(MaxAbsDiffMat(CallingErrorMatrix(st.cov, st.nsub, st.F), CallingErrorMatrix(st.cov, st.nsub, "0")), bound)
-    /\ RLeq(MaxAbsDiffSeq(NoCall(st.cov, st.nseq, st.F), NoCall(st.cov, st.nseq, "0")), bound)
+    /\ RLeq(MaxAbsDiffMat(st.c.pj, st.c0.pj), bound)
+    /\ RLeq(MaxAbsDiffMat(st.c.ce, st.c0.ce), bound)
+    /\ RLeq(MaxAbsDiffSeq(st.c.nc, st.c0.nc), bound)
 \* ---- the corrected model only redistributes or loses sites ----
-L_Total == v # <<>> => (\A j \in 1..Len(v) : RNonNeg(v[j])) /\ RLeq(RSum(v), "1")
+Pending == IF stage \in {"called", "subsampled", "miscalled"} THEN SimMass ELSE "0"      \* set aside for the simulator
+L_Total == v # <<>> => /\ \A j \in 1..Len(v) : RNonNeg(v[j])
+                       /\ RLeq(RAdd(RSum(v), Pending), RSum(st.model))
+\* exactly the sites that are not called or lack covered individuals are lost
 L_StageTotals ==
-    LET nc == NoCall(st.cov, st.nseq, st.F)[st.x + 1]
-        e  == EnoughCovered(st.cov, st.nseq, st.nsub)
-    IN  /\ stage = "called" => RSum(v) = RSub("1", nc)
-        /\ stage \in {"subsampled", "corrected"} => RSum(v) = RMul(RSub("1", nc), e)
-        /\ stage = "simulated" => RSum(v) = "1"
+    LET called == RSum([k \in 1..Len(st.model) |-> IF st.usesim[k] THEN "0" ELSE RMul(st.model[k], RSub("1", st.c.nc[k]))]) IN
+    /\ stage = "called" => RSum(v) = called
+    /\ stage \in {"subsampled", "miscalled"} => RSum(v) = RMul(called, st.c.e)
+    /\ stage = "corrected" => RSum(v) = RAdd(RMul(called, st.c.e), SimMass)
+\* the staged computation is the packaged composition (analytic + simulated parts)
 L_Corrected == stage = "corrected" =>
-    v = Apply(UnitSpec(st.nseq + 1, st.x), <<st.cov>>, <<st.nseq>>, <<st.nsub>>, <<st.F>>).d
+    LET sh == <<st.nseq + 1>>
+        sims == Tab([j \in 1..Cardinality({k \in 1..(st.nseq + 1) : st.usesim[k]}) |->
+                   [af |-> <<(CHOOSE k \in 1..(st.nseq + 1) : st.usesim[k] /\ Cardinality({kk \in 1..k : st.usesim[kk]}) = j) - 1>>,
+                    d |-> Tab(Unit(st.nsub + 1, st.simj))]])
+        c == Compose(sh, st.model, st.c.nc, st.usesim, <<st.c.pm>>, <<st.c.ce>>, sims)
+    IN  /\ c.sh = <<st.nsub + 1>> /\ c.d = v
+        \* with nothing simulated this is the analytic operator Apply
+        /\ (\A k \in 1..(st.nseq + 1) : ~st.usesim[k]) =>
+              v = Apply([sh |-> sh, d |-> st.model, m |-> [k \in 1..(st.nseq + 1) |-> FALSE], f |-> FALSE, ids |-> <<>>],
+                        <<st.cov>>, <<st.nseq>>, <<st.nsub>>, <<st.F>>).d
 \* two populations with the same design: the N-dimensional composition factorises over the axes; every axis
 \* carries the survival factor lam = probability that enough individuals are covered in both populations
 L_TwoPops == (stage = "params" /\ st.nseq <= 4) =>
     LET sh  == <<st.nseq + 1, st.nseq + 1>>
         sh2 == <<st.nsub + 1, st.nsub + 1>>
-        nc  == NoCall(st.cov, st.nseq, st.F)
+        nc  == st.c.nc
         lam == SurvivalAll(<<st.cov, st.cov>>, <<st.nseq, st.nseq>>, <<st.nsub, st.nsub>>)
         pm  == SubsampleMat(lam, st.nseq, st.nsub, st.F)
-        ce  == CallingErrorMatrix(st.cov, st.nsub, st.F)
+        ce  == st.c.ce
         ncnd == Tab([k \in 1..Size(sh) |-> LET ix == Unflat(sh, k) IN RMul(nc[ix[1] + 1], nc[ix[2] + 1])])
         nosim == [k \in 1..Size(sh) |-> FALSE]
         \* one population, one site class: subsample then miscall
@@ -155,7 +191,7 @@ L_TwoPops == (stage = "params" /\ st.nseq <= 4) =>
         expT == Tab([j \in 1..Size(sh) |-> LET jx == Unflat(sh, j) IN expect(jx[1], jx[2])])
         gen == [sh |-> sh, d |-> [k \in 1..Size(sh) |-> RInt(2 * k + 1)], m |-> [k \in 1..Size(sh) |-> FALSE], f |-> FALSE, ids |-> <<>>]
         ag  == Apply(gen, <<st.cov, st.cov>>, <<st.nseq, st.nseq>>, <<st.nsub, st.nsub>>, <<st.F, st.F>>)
-    IN  /\ \A x1, x2 \in 0..st.nseq :
+    IN  /\ st.nseq = 2 => \A x1, x2 \in 0..st.nseq :
               LET a == Compose(sh, [k \in 1..Size(sh) |-> IF Unflat(sh, k) = <<x1, x2>> THEN "1" ELSE "0"], ncnd, nosim, <<pm, pm>>, <<ce, ce>>, <<>>)
               IN  /\ a.sh = sh2 /\ a.d = expT[Flat(sh, <<x1, x2>>)] /\ RLeq(RSum(a.d), "1")
                   /\ RSum(a.d) = RMul(RSub("1", RMul(nc[x1 + 1], nc[x2 + 1])), RSq(lam))      \* sites are lost, never created
@@ -164,7 +200,7 @@ L_TwoPops == (stage = "params" /\ st.nseq <= 4) =>
         /\ ag.d = Tab([k \in 1..Size(sh2) |-> RSum([j \in 1..Size(sh) |-> RMul(gen.d[j], expT[j][k])])])
         /\ RLeq(RSum(ag.d), RSum(gen.d))
 \* ---- deep-coverage limit is the plain projection of SpectrumOps ----
-L_DeepIsProjection == stage = "design" => \A x \in 0..st.nseq :
+L_DeepIsProjection == (stage = "design" /\ PointMass3(st.cov)) => \A x \in 0..st.nseq :
     DeepLimit(UnitSpec(st.nseq + 1, x), <<st.nseq>>, <<st.nsub>>, <<"0">>).d = Project(UnitSpec(st.nseq + 1, x), <<st.nsub>>).d
 \* every individual at depth exactly 3 (point mass): closed forms
 L_PointMass == (stage = "design" /\ st.cov[4] = "1") =>
